@@ -113,8 +113,8 @@ Example C06_quote_hypotheses_met :
 Proof. exact quote_line_example. Qed.
 
 (* ---- containers within containers, any depth ----
-   For EVERY list cs of containers - block quote markers "> " and bullet markers ('-', '*' or '+' followed by one to
-   four spaces: okc) in any order - whose weight
+   For EVERY list cs of containers - block quote markers "> ", bullet markers ('-', '*' or '+' followed by one to four
+   spaces) and ordered markers (one to nine digits, '.' or ')', one to four spaces): okc - in any order, whose weight
    (1 per quote, 2 per item) stays below maxNesting, every line s of the class above, every configuration whose block
    chain is  table/code/fence*  blockquote  table/code/fence/hr*  list  (rules other than paragraph)*  paragraph ...,
    any inline configuration and any env:  parse(prefix(cs) s LF)  is the paragraph of s wrapped in exactly those
@@ -150,6 +150,25 @@ Definition C06_wrapc_means :
     /\ (okc (CI m k) <-> (m = 42 \/ m = 45 \/ m = 43) /\ (1 <= k <= 4)%nat)
   := fun s cs m k lv hid ch => conj eq_refl (conj eq_refl (conj eq_refl (conj eq_refl (conj eq_refl (conj eq_refl (conj (fun x => x) (fun x => x))))))).
 
+(* ... and an ordered marker: the list records the number written as its start attribute (unless it is 1), the item records
+   the digits written as its info, both record the delimiter as markup *)
+Definition C06_wrapc_ordered_means :
+  forall s cs d0 ds dl k lv hid ch,
+    wrapc s (CO d0 ds dl k :: cs) lv hid ch
+    = ol_open_at dl (int_of_digits (d0 :: ds)) lv :: li_open_g true (d0 :: ds) dl (lv + 1) :: wrapc s cs (lv + 2) true ch
+      ++ [li_close_at dl (lv + 1); ol_close_at dl lv]
+    /\ prefix (CO d0 ds dl k :: cs) = ((d0 :: ds) ++ dl :: repeat 32 k) ++ prefix cs
+    /\ tinfo (li_open_g true (d0 :: ds) dl (lv + 1)) = d0 :: ds /\ tmarkup (li_open_g true (d0 :: ds) dl (lv + 1)) = [dl]
+    /\ tmarkup (ol_open_at dl (int_of_digits (d0 :: ds)) lv) = [dl]
+    /\ (int_of_digits (d0 :: ds) <> 1 -> tattrs (ol_open_at dl (int_of_digits (d0 :: ds)) lv) = [(s_start, AInt (int_of_digits (d0 :: ds)))])
+    /\ (okc (CO d0 ds dl k) <-> is_digit d0 = true /\ Forall (fun d => is_digit d = true) ds /\ len ds <= 8 /\ (dl = 46 \/ dl = 41) /\ (1 <= k <= 4)%nat).
+Proof.
+  intros s cs d0 ds dl k lv hid ch. split; [reflexivity|]. split; [reflexivity|]. split; [reflexivity|]. split; [reflexivity|].
+  split; [unfold ol_open_at; destruct (negb (int_of_digits (d0 :: ds) =? 1)); reflexivity|].
+  split; [|split; exact (fun x => x)].
+  intros H. unfold ol_open_at. destruct (int_of_digits (d0 :: ds) =? 1) eqn:E; [apply Z.eqb_eq in E; contradiction | reflexivity].
+Qed.
+
 (* the nested block loop, for any containers in front of the rest of the line, from any well-placed state *)
 Theorem C06_nested_loop_any_containers :
   forall cfg rf cf s, line_ok s ->
@@ -166,6 +185,6 @@ Print Assumptions C06_nested_loop_any_containers.
 Example C06_nested_hypotheses_met :
   [nm_table; nm_code; nm_fence; nm_blockquote; nm_hr; nm_list; nm_reference; nm_html_block; nm_heading; nm_lheading; nm_paragraph]
   = [nm_table; nm_code; nm_fence] ++ nm_blockquote :: [nm_hr] ++ nm_list :: [nm_reference; nm_html_block; nm_heading; nm_lheading] ++ nm_paragraph :: []
-  /\ prefix [CQ; CI 45 1; CI 42 3; CQ] ++ [102; 111; 111] ++ [10] = [62; 32; 45; 32; 42; 32; 32; 32; 62; 32; 102; 111; 111; 10]
-  /\ weight [CQ; CI 45 1; CI 42 3; CQ] = 6 /\ Forall okc [CQ; CI 45 1; CI 42 3; CQ].
+  /\ prefix [CQ; CI 45 1; CO 49 [50] 46 2; CQ] ++ [102; 111; 111] ++ [10] = [62; 32; 45; 32; 49; 50; 46; 32; 32; 62; 32; 102; 111; 111; 10]
+  /\ weight [CQ; CI 45 1; CO 49 [50] 46 2; CQ] = 6 /\ Forall okc [CQ; CI 45 1; CO 49 [50] 46 2; CQ].
 Proof. exact nested_example. Qed.
